@@ -17,7 +17,7 @@ func init() {
 	register(&Property{
 		Meta: report.Meta{
 			Property:    "C10",
-			Explanation: "Structural rules on constructors and decoders: (R1) New, Root and tokenFromModel of both packages cannot succeed unless validate() of the very token they return succeeded, and validate cannot succeed with an undefined issuer, an undefined audience (delegation) / subject (invocation) or a nonce shorter than 12 bytes (decision tables, including the accumulator/closure idiom); (R2) fields of the Token structs are written only in New, tokenFromModel and the Option closures; (R3) in tokenFromModel every token field is the checked result of its validator applied to the corresponding model field (did.Parse, parse.OptionalDID, command.Parse, policy.FromIPLD, Args.Validate, parse.OptionalTimestamp); policy.FromIPLD requires ValidateIntegerBoundsIPLD; (R4) ValidateIntegerBoundsIPLD rejects integers beyond +/-(2^53-1) and AsInt errors, and recurses with a failing-on-error guard over the iterators of list and map nodes; Args.Add stores exactly the node that literal.Any produced and ValidateIntegerBoundsIPLD accepted; (R5) every conversion from an unsigned 64-bit value to int64 in literal/args/meta is dominated by an upper-bound fact; (R6) the two Tag constants differ, each Tag() returns its own, and the generic decoder dispatches each tag to its typed decoder (envelope shape: C06.R2). Strictness of bindnode for unknown / missing / retyped fields is trusted. (R7) args.Builder: after Add the error field is errors.Join(old, new), or left alone / replaced only on paths whose facts make that lossless; Build fails when it is set and returns the builder's own Args. literal.Any and anyAssemble: every scalar given to basicnode.New* / qp.String|Bytes|Bool|Int|Float / Assign* is reached from the parameter through type assertions, conversions, loads, phis and reflect.Value accessors only. delegation.Root passes WithSubject(issuer) to New as the last option (or sets the subject after New). A package-level node is handed out by literal.Any only under an equality test of the caller's value with the very bool, integer or string constant the node was built from. (R1) in New of both token packages a path with a fact that a dyncall (an option) answered non-nil ends in a failure return. (R4) literal.Any, anyAssemble, their literals and new helpers call neither literal.Null, qp.Null nor AssignNull, read neither datamodel.Null nor datamodel.Absent, and hand no constant to a scalar node constructor. (R4) in the token packages the value argument of every static call of (*Args).Add, (*Meta).Add, (*Meta).AddEncrypted and literal.Any is reached from parameters / captured variables through assertions, conversions, loads and phis only (stores into the captured variable inside the literal are followed); the same holds for the links built in literal.Any, anyAssemble and LinkCid (basicnode.NewLink, qp.Link, the package's constructor aliases; fields of local structs are followed). (R4) every path of anyAssemble returning qp.List carries the negative fact reflect.Uint8 == Type.Elem().Kind() of the value. (R4) totalLoop over anyAssemble with qp.MapEntry / qp.ListEntry as the emitting calls: one per loop, dominating every back edge.",
+			Explanation: "Structural rules on constructors and decoders: (R1) New, Root and tokenFromModel of both packages cannot succeed unless validate() of the very token they return succeeded, and validate cannot succeed with an undefined issuer, an undefined audience (delegation) / subject (invocation) or a nonce shorter than 12 bytes (decision tables, including the accumulator/closure idiom); (R2) fields of the Token structs are written only in New, tokenFromModel and the Option closures; (R3) in tokenFromModel every token field is the checked result of its validator applied to the corresponding model field (did.Parse, parse.OptionalDID, command.Parse, policy.FromIPLD, Args.Validate, parse.OptionalTimestamp); policy.FromIPLD requires ValidateIntegerBoundsIPLD; (R4) ValidateIntegerBoundsIPLD rejects integers beyond +/-(2^53-1) and AsInt errors, and recurses with a failing-on-error guard over the iterators of list and map nodes; Args.Add stores exactly the node that literal.Any produced and ValidateIntegerBoundsIPLD accepted; (R5) every conversion from an unsigned 64-bit value to int64 in literal/args/meta is dominated by an upper-bound fact; (R6) the two Tag constants differ, each Tag() returns its own, and the generic decoder dispatches each tag to its typed decoder (envelope shape: C06.R2). Strictness of bindnode for unknown / missing / retyped fields is trusted. (R7) args.Builder: after Add the error field is errors.Join(old, new), or left alone / replaced only on paths whose facts make that lossless; Build fails when it is set and returns the builder's own Args. literal.Any and anyAssemble: every scalar given to basicnode.New* / qp.String|Bytes|Bool|Int|Float / Assign* is reached from the parameter through type assertions, conversions, loads, phis and reflect.Value accessors only. delegation.Root passes WithSubject(issuer) to New as the last option (or sets the subject after New). A package-level node is handed out by literal.Any only under an equality test of the caller's value with the very bool, integer or string constant the node was built from. (R1) in New of both token packages a path with a fact that a dyncall (an option) answered non-nil ends in a failure return. (R4) literal.Any, anyAssemble, their literals and new helpers call neither literal.Null, qp.Null nor AssignNull, read neither datamodel.Null nor datamodel.Absent, and hand no constant to a scalar node constructor. (R4) in the token packages the value argument of every static call of (*Args).Add, (*Meta).Add, (*Meta).AddEncrypted and literal.Any is reached from parameters / captured variables through assertions, conversions, loads and phis only (stores into the captured variable inside the literal are followed); the same holds for the links built in literal.Any, anyAssemble and LinkCid (basicnode.NewLink, qp.Link, the package's constructor aliases; fields of local structs are followed). (R4) every path of anyAssemble returning qp.List carries the negative fact reflect.Uint8 == Type.Elem().Kind() of the value. (R4) totalLoop over anyAssemble with qp.MapEntry / qp.ListEntry as the emitting calls: one per loop, dominating every back edge. (R4) a Convert between a float and an integer type on the way to a node constructor counts as a change of the value; every path of anyAssemble returning qp.Map carries the positive fact reflect.String == Type.Key().Kind().",
 			Assumptions: []string{"bindnode schema strictness (unknown, missing, wrongly typed fields)", "go-ipld-prime iterators visit every child"},
 			Trusted:     []string{"go-ipld-prime bindnode", "golang.org/x/tools/go/ssa v0.29.0"},
 			NotDecided:  []string{"bindnode's rejection of malformed payloads", "values produced by reflection in literal.anyAssemble beyond the bound facts"},
@@ -119,6 +119,7 @@ func runC10(x *Ctx) {
 	optionsPassValues(x)
 	listsExcludeBytes(x)
 	containersKeepEveryEntry(x)
+	mapKeysAreStrings(x)
 	rootSubjectLast(x)
 }
 
